@@ -170,20 +170,22 @@ Theorem C07_query_sound :
 Proof. exact query_sound. Qed.
 Print Assumptions C07_query_sound.
 
-(* Indexing, iteration and np.array() of a mapped feature (scalar, image,
+(* Indexing, iteration, np.array() (also with a dtype), max() and min() of
+   a mapped feature (scalar, image,
    ragged contour with the fixed __array__) all show origin[basinmap], in
    every reachable cache state. *)
 Theorem C07_proxy_access_agree :
   forall (A : Type) (feat : list A) (bmap : list Z) (is_scalar : bool)
-         (cast : A -> A) (mapped : list A),
+         (cast : A -> A) (amax amin : list A -> option A) (mapped : list A),
     gather feat bmap = Some mapped ->
     forall (cache : option (list A)) (ac : access),
       (cache = None \/ (is_scalar = true /\ cache = Some mapped)) ->
-      snd (proxy_access A feat bmap is_scalar cast cache ac)
-      = direct_access cast mapped ac /\
-      (fst (proxy_access A feat bmap is_scalar cast cache ac) = None \/
+      snd (proxy_access A feat bmap is_scalar cast amax amin cache ac)
+      = direct_access cast amax amin mapped ac /\
+      (fst (proxy_access A feat bmap is_scalar cast amax amin cache ac)
+       = None \/
        (is_scalar = true /\
-        fst (proxy_access A feat bmap is_scalar cast cache ac)
+        fst (proxy_access A feat bmap is_scalar cast amax amin cache ac)
         = Some mapped)).
 Proof. exact @proxy_access_agree. Qed.
 Print Assumptions C07_proxy_access_agree.
@@ -214,7 +216,8 @@ Theorem C07_export_file_sound :
                (st ++ [Some fl']) (length st) fl' /\
     f_n fl' = zlen (fmask filt cv) /\ length (f_slots fl') = 10%nat /\
     match filt with Some f => zlen cv = zlen f | None => True end /\
-    (forall b, In b (f_basins fl') -> (b_target b < length st)%nat).
+    (forall b, In b (f_basins fl') -> (b_target b < length st)%nat) /\
+    (forall b, In b (f_basins fl') -> b_internal b = false).
 Proof. exact export_sound. Qed.
 Print Assumptions C07_export_file_sound.
 
@@ -336,12 +339,79 @@ Print Assumptions C07_moved_together.
    the original: same data, same basin, same map. *)
 Theorem C07_copy_keeps_lookup :
   forall (st : store) (fid : nat) (fl : file) (keep : list Z),
-    scoped_all st ->
+    scoped st -> internal_listed st ->
     get_file st fid = Some fl ->
-    (forall b, In b (f_basins fl) -> b_internal b = true ->
-               b_feats b <> None) ->
     forall (fu : nat) (f : Z), zmem f keep = true ->
       lookup fu (st ++ [Some (copy_file fl keep)]) (length st) f
       = lookup fu st fid f.
 Proof. exact copy_keeps_lookup. Qed.
 Print Assumptions C07_copy_keeps_lookup.
+
+(* The copy step keeps the whole invariant (consistency, acyclicity, listed
+   internal features, ten map features, event counts): the copy stands for
+   the same origin events as its source. *)
+Theorem C07_copy_step_sound :
+  forall (truth : Z -> list Z) (oms : list (list Z)) (st : store)
+         (src : nat) (fl : file) (keep : list Z),
+    pipe_inv truth oms st ->
+    get_file st src = Some fl ->
+    pipe_inv truth (oms ++ [omf oms src]) (st ++ [Some (copy_file fl keep)]).
+Proof. exact copy_file_sound. Qed.
+Print Assumptions C07_copy_step_sound.
+
+(* Pipelines: for every list of steps (hand-written files with same /
+   mapped / internal basins, filtered / unfiltered / empty exports from files
+   and hierarchy children, copies; failed steps leave holes) whose steps meet
+   their preconditions in the store built so far, the store computed by
+   run_steps - the function the correspondence runs against the real code -
+   satisfies the invariant: consistent with the measurement for the origin
+   events [news], acyclic, internal features listed, ten map features, event
+   counts.  By induction over the steps. *)
+Theorem C07_pipeline_sound :
+  forall (truth : Z -> list Z) (steps : list step) (news : list (list Z)),
+    steps_ok truth [] [] steps news ->
+    pipe_inv truth news (run_steps steps).
+Proof. exact pipeline_sound. Qed.
+Print Assumptions C07_pipeline_sound.
+
+Theorem C07_pipeline_resolve :
+  forall (truth : Z -> list Z) (steps : list step) (news : list (list Z))
+         (fid : nat) (f : Z) (d : list Z),
+    steps_ok truth [] [] steps news ->
+    resolve (run_steps steps) fid f = Some d ->
+    gather (truth f) (nth fid news []) = Some d.
+Proof. exact pipeline_resolve. Qed.
+Print Assumptions C07_pipeline_resolve.
+
+(* Every access (index, iteration, np.array, cast) to what lookup hands out
+   shows the origin's feature at the file's events. *)
+Theorem C07_access_sound :
+  forall (truth : Z -> list Z) (omap : nat -> list Z) (st : store)
+         (fid : nat) (f : Z) (o : obj) (mapped : list Z) (cast : Z -> Z)
+         (amax amin : list Z -> option Z)
+         (cache : option (list Z)) (ac : access),
+    store_sound truth omap st ->
+    lookup (fuel_of st) st fid f = Some o ->
+    gather (truth f) (omap fid) = Some mapped ->
+    match o with
+    | ODirect d => direct_access cast amax amin d ac
+                   = direct_access cast amax amin mapped ac
+    | OProxy d m =>
+        forall dm, gather d m = Some dm ->
+        (cache = None \/ (is_scalar_feat f = true /\ cache = Some dm)) ->
+        snd (proxy_access Z d m (is_scalar_feat f) cast amax amin cache ac)
+        = direct_access cast amax amin mapped ac
+    end.
+Proof. exact access_sound. Qed.
+Print Assumptions C07_access_sound.
+
+(* Moved together, another dataset at the old absolute path: it does not
+   pass the identifier check and the relative entry is used. *)
+Theorem C07_moved_together_foreign_file :
+  forall (fs' : fsys) (ok : Z -> bool) (dir dir' rel : list Z) (id other : Z),
+    fs' (dir ++ rel) = Some other -> ok other = false ->
+    fs' (dir' ++ rel) = Some id -> ok id = true ->
+    find_basin fs' ok dir' [LAbs (dir ++ rel); LRel rel]
+    = Some (1, dir' ++ rel).
+Proof. exact moved_together_other_file. Qed.
+Print Assumptions C07_moved_together_foreign_file.
